@@ -1,7 +1,66 @@
 import Mutagen.Driver.Util
+import Mutagen.Driver.Tree
 namespace Mutagen.Driver.C07
+open Mutagen.Driver Mutagen.Driver.Tree Mutagen.Model
 
-/-- Model-side handler for one line of the C07 correspondence stream. -/
-def handle (_line : String) : String := "unimplemented"
+/-!
+Line: `<op> <args…>` (trees, changes, paths in the encoding of `Driver/Tree.lean`)
+  `diff <a> <b>`            → canonical change list of `Diff(a, b)`
+  `apply <a> <changes>`     → `Apply(a, changes)` (changes in the given order): tree | `err:unresolved` | `err:panic`
+  `appdiff <a> <b>`         → `Apply(a, Diff(a, b))`
+  `copy <deep|dpl|shallow|slim> <a>` → the copy
+  `sync <a>`                → `a.synchronizable()` (`xsync`: same, on malformed trees, no oracle)
+  `count <a>`               → `a.Count()`
+  `valid <0|1> <a>`         → `a.EnsureValid(sync) == nil` as 0/1 (`validgen`: same, on generated valid trees)
+  `equal <0|1> <a> <b>`     → `a.Equal(b, deep)` as 0/1
+  `problems <a>`            → sorted `path!text` list of `a.Problems()`
+  `chvalid <0|1> <change>`  → `Change.EnsureValid(sync) == nil`, then `|` and the slim change,
+                              then root-deletion and root-type-change flags
+-/
+
+def parseBehavior : String → Option CopyBehavior
+  | "deep" => some .deep | "dpl" => some .deepPreservingLeaves
+  | "shallow" => some .shallow | "slim" => some .slim | _ => none
+
+def parseFlag : String → Option Bool
+  | "0" => some false | "1" => some true | _ => none
+
+def run : List String → Option String
+  | ["diff", a, b] => do
+    pure (showChanges (Diff (← parseOEntry a) (← parseOEntry b)))
+  | ["apply", a, cs] => do
+    pure (showApplyResult (apply (← parseOEntry a) (← parseChanges cs)))
+  | ["appdiff", a, b] => do
+    let a ← parseOEntry a
+    pure (showApplyResult (apply a (Diff a (← parseOEntry b))))
+  | ["copy", b, a] => do
+    pure (showOEntry (ocopy (← parseBehavior b) (← parseOEntry a)))
+  | ["sync", a] => do
+    pure (showOEntry (osync (← parseOEntry a)))
+  | ["xsync", a] => do
+    pure (showOEntry (osync (← parseOEntry a)))
+  | ["count", a] => do
+    pure (toString (ocount (← parseOEntry a)))
+  | ["valid", s, a] => do
+    pure (showBool (oensureValid (← parseFlag s) (← parseOEntry a)))
+  | ["validgen", s, a] => do
+    pure (showBool (oensureValid (← parseFlag s) (← parseOEntry a)))
+  | ["equal", d, a, b] => do
+    let a ← parseOEntry a
+    let b ← parseOEntry b
+    pure (showBool (if ← parseFlag d then deepEq a b else shallowEq a b))
+  | ["problems", a] => do
+    let ps := oproblems (← parseOEntry a)
+    pure (showList (sortStrings (ps.map fun (p, t) => showPath p ++ "!" ++ encText t)))
+  | ["chvalid", s, c] => do
+    let c ← parseChange c
+    pure (showBool (c.ensureValid (← parseFlag s)) ++ "|" ++ showChange c.slim ++ "|" ++
+      showBool c.isRootDeletion ++ showBool c.isRootTypeChange)
+  | _ => none
+
+def handle (line : String) : String :=
+  match run (fields line) with
+  | some out => out
+  | none => "bad-op"
 
 end Mutagen.Driver.C07
